@@ -123,51 +123,6 @@ namespace
 
     unsigned long g_boot = 0; // monotone across the whole process so the hook's boot cache never aliases
 
-    // ------------------------------------------------------------------ report of the real code
-    using Report = std::array<bool, N_ARCH>;
-
-    Report read_report(const xsimd::detail::supported_arch& s)
-    {
-        Report r;
-        r[A_SSE2] = s.has(xsimd::sse2 {});
-        r[A_SSE3] = s.has(xsimd::sse3 {});
-        r[A_SSSE3] = s.has(xsimd::ssse3 {});
-        r[A_SSE4_1] = s.has(xsimd::sse4_1 {});
-        r[A_SSE4_2] = s.has(xsimd::sse4_2 {});
-        r[A_FMA3_SSE] = s.has(xsimd::fma3<xsimd::sse4_2> {});
-        r[A_FMA4] = s.has(xsimd::fma4 {});
-        r[A_AVX] = s.has(xsimd::avx {});
-        r[A_FMA3_AVX] = s.has(xsimd::fma3<xsimd::avx> {});
-        r[A_AVX2] = s.has(xsimd::avx2 {});
-        r[A_FMA3_AVX2] = s.has(xsimd::fma3<xsimd::avx2> {});
-        r[A_AVXVNNI] = s.has(xsimd::avxvnni {});
-        r[A_AVX512F] = s.has(xsimd::avx512f {});
-        r[A_AVX512CD] = s.has(xsimd::avx512cd {});
-        r[A_AVX512DQ] = s.has(xsimd::avx512dq {});
-        r[A_AVX512BW] = s.has(xsimd::avx512bw {});
-        r[A_AVX512ER] = s.has(xsimd::avx512er {});
-        r[A_AVX512PF] = s.has(xsimd::avx512pf {});
-        r[A_AVX512IFMA] = s.has(xsimd::avx512ifma {});
-        r[A_AVX512VBMI] = s.has(xsimd::avx512vbmi {});
-        r[A_AVX512VBMI2] = s.has(xsimd::avx512vbmi2 {});
-        r[A_AVX512VNNI_BW] = s.has(xsimd::avx512vnni<xsimd::avx512bw> {});
-        r[A_AVX512VNNI_VBMI2] = s.has(xsimd::avx512vnni<xsimd::avx512vbmi2> {});
-        r[A_NEON] = s.has(xsimd::neon {});
-        r[A_NEON64] = s.has(xsimd::neon64 {});
-        r[A_I8MM] = s.has(xsimd::i8mm<xsimd::neon64> {});
-        r[A_SVE] = s.has(xsimd::detail::sve<512> {}) || s.has(xsimd::detail::sve<256> {}) || s.has(xsimd::detail::sve<128> {});
-        r[A_RVV] = s.has(xsimd::detail::rvv<512> {}) || s.has(xsimd::detail::rvv<256> {}) || s.has(xsimd::detail::rvv<128> {});
-        r[A_WASM] = s.has(xsimd::wasm {});
-        return r;
-    }
-    uint64_t report_mask(const Report& r)
-    {
-        uint64_t m = 0;
-        for (int i = 0; i < N_ARCH; ++i)
-            m |= (uint64_t)r[i] << i;
-        return m;
-    }
-
     // ------------------------------------------------------------------ plan
     enum OpKind
     {
@@ -176,9 +131,10 @@ namespace
         OP_DETECT_AGAIN,
         OP_CONSTRUCT_FRESH,
         OP_DISPATCH,
+        OP_EARLY, // look at what initialisers that ran before main() on the REAL machine saw, and use the dispatcher one of them built
         N_OPKIND
     };
-    const char* OPNAME[N_OPKIND] = { "boot", "detect", "detect_again", "construct_fresh", "dispatch" };
+    const char* OPNAME[N_OPKIND] = { "boot", "detect", "detect_again", "construct_fresh", "dispatch", "early_initialiser" };
 
     struct Op
     {
@@ -234,10 +190,11 @@ namespace
         return false;
     }
 
-    Counter c_boots("sim", "boots"), c_detects("sim", "detect_calls"), c_dispatches("sim", "dispatch_calls"), c_fresh("sim", "construct_fresh_calls");
+    Counter c_boots("sim", "boots"), c_detects("sim", "detect_calls"), c_dispatches("sim", "dispatch_calls"), c_fresh("sim", "construct_fresh_calls"),
+        c_early("sim", "early_initialiser_observations");
     Counter c_cpuid("sim", "cpuid_instructions"), c_xgetbv("sim", "xgetbv_instructions");
     Counter cl_onlyif("clause", "1_only_if(arch,boot)"), cl_mono("clause", "2_monotone_on_closed(child,parent,boot)"), cl_ud("clause", "3_no_xgetbv_ud(boot)"),
-        cl_stable("clause", "4_stable_within_boot(compare)"), cl_disp("clause", "5_dispatch_judged"), cl_disp_vac("clause", "5_dispatch_vacuous_none_available"),
+        cl_early("clause", "1-5_before_main_on_the_real_machine(compare)"), cl_stable("clause", "4_stable_within_boot(compare)"), cl_disp("clause", "5_dispatch_judged"), cl_disp_vac("clause", "5_dispatch_vacuous_none_available"),
         cl_disp_twice("clause", "5_second_invocation_of_a_kept_dispatcher_judged"), cl_disp_misc("clause", "5_other_call_shapes_judged(void_no_argument,five_mixed_arguments)");
     Counter p_closed("probe", "closed_configurations"), p_nonclosed("probe", "non_closed_configurations"), p_bits_no_state("probe", "arch_with_bits_but_os_state_disabled"),
         p_fall5("probe", "dispatch_fell_through_5_or_more"), p_last("probe", "dispatch_chose_last_member"), p_underreport("info", "bits_and_state_present_but_not_reported(permitted:the_property_says_only_if)"),
@@ -276,6 +233,7 @@ namespace
             }
         }
         void configure(const sim::Params& p) { max_ops = p.u64("max_ops", 40); }
+        Report real_main, real_pass; // the real machine as reported from main() without a source, and through a pass-through source
         uint64_t shrink_budget() const { return 20000; }
         // "process start" is part of this simulation: violation candidates are confirmed, shrunk and reported in pristine processes, and a
         // candidate that needs more than one machine lifetime in the same process (state carried across a simulated reboot) is an artefact
@@ -298,8 +256,10 @@ namespace
             xsimd::verif::current_cpu_source() = &pass;
             Report b = read_report(xsimd::available_architectures());
             xsimd::verif::current_cpu_source() = nullptr;
-            if (a != b)
-                throw std::runtime_error("C15 self-test: pass-through CPU source disagrees with the un-hooked detector");
+            real_main = a;
+            real_pass = b;
+            if (!g_early_registry.taken || !g_early_ctor.taken)
+                throw std::runtime_error("C15 self-test: the pre-main initialisers of early.cpp did not run");
             if (lists.empty())
                 throw std::runtime_error("C15 self-test: no arch lists compiled in");
         }
@@ -509,8 +469,17 @@ namespace
             uint64_t n = 1 + rng.below(max_ops);
             Plan plan;
             plan.push_back(gen_boot(rng, enabled_faults, unrelated_mode, raw_pct));
+            const bool with_early = rng.chance(1, 16);
+            const uint64_t early_at = 1 + rng.below(n);
             while (plan.size() < n)
             {
+                if (with_early && plan.size() == early_at)
+                {
+                    Op e;
+                    e.kind = OP_EARLY;
+                    plan.push_back(e);
+                    continue;
+                }
                 unsigned tot = w_detect + w_again + w_fresh + w_disp + w_reboot;
                 unsigned x = (unsigned)rng.below(tot);
                 Op op;
@@ -546,6 +515,14 @@ namespace
             Report first;
             bool judged = false;
         };
+
+        static Report read_early(const EarlyObservation& e)
+        {
+            Report r;
+            for (int a = 0; a < N_ARCH; ++a)
+                r[a] = e.report[a];
+            return r;
+        }
 
         void judge_report(const Cfg& cfg, const Report& rep, sim::Outcome& out)
         {
@@ -655,6 +632,46 @@ namespace
                     ++c_detects;
                     Report rep = read_report(xsimd::available_architectures());
                     observe(rep, OPNAME[op.kind]);
+                    break;
+                }
+                case OP_EARLY:
+                {
+                    // Not part of the simulated machine: what initialisers that ran before main() saw on the REAL one (early.cpp). The reference is
+                    // the same detection code driven through a pass-through source from main(); the simulated runs judge that code bit by bit.
+                    ++c_early;
+                    struct
+                    {
+                        const char* who;
+                        const EarlyObservation* e;
+                    } obs[2] = { { "an init_priority(101) object", &g_early_registry }, { "a constructor(101) function", &g_early_ctor } };
+                    for (auto& ob : obs)
+                        for (int a = 0; a < N_ARCH; ++a)
+                        {
+                            ++cl_early;
+                            if (ob.e->report[a] != real_pass[a])
+                                out.violate(sim::fmt("C15/early-initialiser-sees-other-machine(%s)", SPEC[a].name),
+                                            sim::fmt("available_architectures() called from %s before main() reports %s %s, the detection run from main() on the same machine says %s",
+                                                     ob.who, SPEC[a].name, ob.e->report[a] ? "available" : "unavailable", real_pass[a] ? "available" : "unavailable"));
+                        }
+                    for (int a = 0; a < N_ARCH; ++a)
+                        if (real_main[a] != real_pass[a])
+                            out.violate(sim::fmt("C15/early-initialiser-sees-other-machine(%s)", SPEC[a].name), sim::fmt("available_architectures() from main() without a source disagrees with the pass-through source on %s", SPEC[a].name));
+                    int n = 0;
+                    const int* ids = early_registry_list(n);
+                    int expect = -1;
+                    for (int i = 0; i < n && expect < 0; ++i)
+                        if (real_pass[ids[i]])
+                            expect = ids[i];
+                    const int before = early_registry_calls();
+                    const int got = early_registry_dispatch();
+                    ++cl_early;
+                    if (early_registry_calls() != before + 1)
+                        out.violate("C15/dispatch-call-count", sim::fmt("the dispatcher built before main() invoked its functor %d times in one call", early_registry_calls() - before));
+                    if (expect >= 0 && got != expect)
+                        out.violate("C15/early-dispatcher-wrong-arch",
+                                    sim::fmt("a dispatcher over the default list built by an init_priority(101) object before main() runs the functor with %s; the first architecture of the list available on this machine is %s",
+                                             got >= 0 && got < N_ARCH ? SPEC[got].name : "?", SPEC[expect].name));
+                    log.rec("early", report_mask(read_early(g_early_registry)), report_mask(read_early(g_early_ctor)), (uint64_t)got);
                     break;
                 }
                 case OP_CONSTRUCT_FRESH:
